@@ -1,0 +1,17 @@
+//go:build verif
+
+package richtext
+
+import (
+	"git.sr.ht/~rockorager/vaxis"
+	"git.sr.ht/~rockorager/vaxis/vxfw"
+)
+
+// VerifRestLen reports how many cells the scanner has not consumed yet.
+func (s *SoftwrapScanner) VerifRestLen() int { return len(s.rest) }
+
+// VerifCells exposes the cell list the widget wraps and draws.
+func (t *RichText) VerifCells(ctx vxfw.DrawContext) []vaxis.Cell { return t.cells(ctx) }
+
+// VerifFirstLineSegment exposes firstLineSegment.
+func VerifFirstLineSegment(cells []vaxis.Cell) ([]vaxis.Cell, bool) { return firstLineSegment(cells) }
